@@ -222,6 +222,11 @@ def valueLikeTypes : List String :=
   ["cosmossdk.io/math.Int", "cosmossdk.io/math.LegacyDec", "cosmossdk.io/math.Uint", "bool", "string", "int", "int32", "int64",
    "uint", "uint32", "uint64", "time.Duration", "*regexp.Regexp"]
 
+/-- value-like, or a slice / array of value-like elements (a never-written slice literal - "never written" includes
+    its elements - is a constant table) -/
+def typeOK (t : String) : Bool :=
+  valueLikeTypes.contains t || valueLikeTypes.any (fun v => t == "[]" ++ v)
+
 def varKey (v : PkgVar) : String × String × String := (v.pkg, v.name, v.type)
 def allowedVarKey (a : AllowedVar) : String × String × String := (a.pkg, a.name, a.type)
 
@@ -235,7 +240,7 @@ open Sge.Gen.KeeperState in
 open Sge.Gen.KeeperState in
 #eval report "package-level variable that is not constant-like and not in the allow-list of C15Facts.lean, or that is written"
   ((otherVars.filter (fun v => v.writes != 0 ||
-      !(KS.valueLikeTypes.contains v.type || (KS.allowedVars.map KS.allowedVarKey).contains (KS.varKey v)))).map
+      !(KS.typeOK v.type || (KS.allowedVars.map KS.allowedVarKey).contains (KS.varKey v)))).map
     (fun v => s!"{v.pkg}.{v.name} : {v.type} = {v.init} (writes: {v.writes}) @ {v.pos}"))
 
 open Sge.Gen.KeeperState in
@@ -259,7 +264,7 @@ open Sge.Gen.KeeperState in
     type or allow-listed (each with a reason), and none of them is ever written; the constant-like ones that are "written" are only
     the generated gRPC service descriptors, whose address is passed to the service registrars at start-up. -/
 theorem no_package_level_mutable_state :
-    otherVars.all (fun v => KS.valueLikeTypes.contains v.type || (KS.allowedVars.map KS.allowedVarKey).contains (KS.varKey v)) = true ∧
+    otherVars.all (fun v => KS.typeOK v.type || (KS.allowedVars.map KS.allowedVarKey).contains (KS.varKey v)) = true ∧
       otherVars.all (fun v => v.writes == 0) = true ∧
       constLikeWritten.all (fun v => v.cls == "generated-pb" && (v.name == "_Msg_serviceDesc" || v.name == "_Query_serviceDesc")) = true ∧
       KS.allowedVars.all (fun a => a.why != "") = true := by
